@@ -58,8 +58,16 @@ for tsv in sorted(glob.glob("sensitivity/C[0-9][0-9].tsv")):
             verdict = "caught" if caught else ("missed in quick" + other)
             rows_s.append(f"| {pid}/{k} | {esc(meta.get('title', ''))} | {esc(', '.join(meta.get('files', [])))} | {verdict} | {secs} s | `{esc(sig)}` |")
 
+r2_first = [ln.rstrip("\n").split("\t") for ln in open("sensitivity/round2-unchanged-checks.tsv")] if os.path.exists("sensitivity/round2-unchanged-checks.tsv") else []
 out = []
-out.append(f"**Independently seeded changes: {tot['s'][1]} of {tot['s'][0]} caught by the quick tier of their own property**"
+out.append("Two rounds of independent seeding. **Round 1** (3 changes per property, 60 in all): 43 were caught by the quick tiers as they "
+           "stood when the changes arrived; the 17 misses drove the strengthening listed in §3.0. **Round 2** (fresh sub-agents, 2 "
+           "changes per property, 40 in all, asked for less obvious mechanisms) measured how well that generalises: "
+           f"{sum(1 for f in r2_first if len(f) > 2 and f[2] == '1')} of {len(r2_first)} were caught by the checks *unchanged* "
+           "(`sensitivity/round2-unchanged-checks.tsv`); the misses were again turned into generator / oracle extensions "
+           "(content after the deprecated block, cross-process regeneration, merges on top of a defaults file, recorded instead of "
+           "mirrored doc conditions, lone surrogates and markup in server requests, ...). The table shows the state at hand-over.\n")
+out.append(f"**At hand-over: {tot['s'][1]} of {tot['s'][0]} seeded changes are caught by the quick tier of their own property**"
            + (f", {tot['s'][2]} more by the quick tier of another property" if tot["s"][2] else "") + ".\n")
 out.append("| change | what the sub-agent changed | files | quick tier of the property | time | first signature |")
 out.append("|---|---|---|---|---|---|")
